@@ -16,7 +16,7 @@ func sortedInts(a []int) bool {
 // validLines: the line table of a source file: first line starts at offset
 // 0, offsets strictly increase and lie inside the file.
 func validLines(lines []int, size int) bool {
-	return len(lines) >= 1 && lines[0] == 0 && len(lines) < 1<<40 &&
+	return len(lines) >= 1 && lines[0] == 0 &&
 		verifrt.Forall2(func(i, j int) bool {
 			return !(0 <= i && i < j && j < len(lines)) || lines[i] < lines[j]
 		}) &&
